@@ -36,6 +36,7 @@ type File struct {
 	VarMarks   int    `json:"var_marks"`
 	InitFuncs  int    `json:"init_funcs"`
 	ExtraNative bool  `json:"extra_native,omitempty"` // imports a bundled native package too
+	Unsupported bool  `json:"unsupported,omitempty"`  // (excluded files) body uses Go syntax outside goatlang's grammar
 }
 
 type Case struct {
@@ -192,7 +193,8 @@ func genCase(rt *rapid.T) *Case {
 			if rx.Chance(rt, "afterComment", 1, 3) && !skip("c15-constraint-after-comment") {
 				hdr = "// Copyright someone.\n\n" + hdr
 			}
-			p.Files = append(p.Files, File{Name: rx.Pick(rt, "xname", "excl.go", "other_os.go", "00.go"), Ignored: true, Header: hdr, VarMarks: 1, InitFuncs: 1})
+			// an excluded file is never parsed: it may use Go that goatlang does not support (generics, channels, cgo)
+			p.Files = append(p.Files, File{Name: rx.Pick(rt, "xname", "excl.go", "other_os.go", "00.go"), Ignored: true, Header: hdr, VarMarks: 1, InitFuncs: 1, Unsupported: rapid.Bool().Draw(rt, "unsupported")})
 		}
 		p.Files[0].ExtraNative = true
 	}
@@ -246,6 +248,9 @@ func (c *Case) files() map[string]string {
 				}
 			}
 			sb.WriteString("\n")
+			if f.Unsupported {
+				sb.WriteString("import \"C\"\n\nfunc Map[T any](xs []T, f func(T) T) []T {\n\tch := make(chan T, 1)\n\tgo func() { ch <- xs[0] }()\n\tselect {\n\tcase v := <-ch:\n\t\treturn []T{f(v)}\n\t}\n}\n\n")
+			}
 			for k := 0; k < f.VarMarks; k++ {
 				fmt.Fprintf(&sb, "var _ = mark%d(%q)\n", fi, c.mark(pi, f.Name, "var", k))
 			}
